@@ -368,7 +368,9 @@ def verdict_coupled(desc):
     # stiff material: the generator must stay inside the convergent couplings (DESIGN section 2)
     surf = make_surface("wing", mesh0, md["kind"], sp, E=3.0e11, G=1.2e11)
     prob = aerostruct_problem([surf], flow=dict(alpha=desc["alpha"], v=desc["v"], Mach=0.2, rho=1.0))
-    prob.run_model()
+    from oasv.models import run_coupled
+
+    run_coupled(prob)
     C = "AS_point_0.coupled."
     mesh = prob.get_val("wing.mesh").copy()
     nodes = prob.get_val("wing.nodes").copy()
